@@ -73,19 +73,19 @@ func (cfg Config) NewServer(be smtp.Backend, log *LogBuf) *smtp.Server {
 
 // Obs is what one engine-S execution shows.
 type Obs struct {
-	Wire      []byte
-	Writes    []WriteRec
-	Replies   []ref.Reply
-	ReplyAt   []int // for each reply: input octets consumed when its first line was written
-	ParseErr  error
-	Trace     []Event
-	Closed    bool   // the server closed the connection
-	Consumed  int    // input octets taken by the server
-	Taken     int    // input octets taken when the server closed the connection
-	Err       error  // return value of the connection handler
-	Log       string // Server.ErrorLog output
-	State     string // Conn.VerifState() when the script ran dry ("" if it never did)
-	Panic     string // a panic that escaped the handler (never expected)
+	Wire            []byte
+	Writes          []WriteRec
+	Replies         []ref.Reply
+	ReplyAt         []int // for each reply: input octets consumed when its first line was written
+	ParseErr        error
+	Trace           []Event
+	Closed          bool   // the server closed the connection
+	Consumed        int    // input octets taken by the server
+	Taken           int    // input octets taken when the server closed the connection
+	Err             error  // return value of the connection handler
+	Log             string // Server.ErrorLog output
+	State           string // Conn.VerifState() when the script ran dry ("" if it never did)
+	Panic           string // a panic that escaped the handler (never expected)
 	ReadsAfterClose int
 }
 
